@@ -270,6 +270,23 @@ def rule_handover(ctx, rep):
         else:
             rep.must_take_edge("C03.handover", fl + ".STOPPED≺queue", f, [f.entry()], emp + sp + frees, [(t.blk.id, s) for t, s in stopped_edges],
                                what="the helper's STOPPED acknowledgement is observed before its queue is inspected, spliced or freed")
+        # the default helper is never torn down this way: it is the helper of last resort every other path hands callbacks to, so the STOP
+        # request (and everything after it) is reached only once crdp != default_call_rcu_data is known
+        stops = [e.inst for e in pat.accesses(f, "call_rcu_data.flags", ("rmw",)) if e.rop == "or" and e.ap["base"] == ["a", 0]]
+        if stops:
+            def _notdef(a):
+                lv = []
+                if a[0] in ("eq", "ne") and a[2] == ("c", 0) and a[1][0] in ("select", "bin", "icmp"):
+                    pat.leaf_atoms(("icmp", "ne", a[1], ("c", 0)), a[0] == "ne", lv)
+                else:
+                    lv = [a]
+                return any(x[0] == "ne" and len(x) == 3 and ((x[1] == ("arg", 0) and x[2][0] == "load" and x[2][1] == "@default_call_rcu_data") or (x[2] == ("arg", 0) and x[1][0] == "load" and x[1][1] == "@default_call_rcu_data")) for x in lv)
+            nd = [(t.blk.id, s_) for t, s_, a in pat.branch_edges_on(f, _notdef)]
+            if not nd:
+                rep.bad("C03.handover", fl + ".never-stops-default", "_call_rcu_data_free never compares crdp with default_call_rcu_data: the default helper can be stopped and freed", [stops[0].where()])
+            else:
+                rep.must_take_edge("C03.handover", fl + ".never-stops-default", f, [f.entry()], stops, nd, include_start=True,
+                                   what="the helper is asked to STOP only after it was found not to be the default helper (a stopped default helper keeps receiving callbacks nobody runs)")
         # leftover callbacks: spliced to the default helper when non-empty, before free
         if not sp:
             rep.bad("C03.handover", fl + ".splice", "leftover callbacks are not handed over to the default helper (lost when the helper is freed)", [frees[0].where()])
